@@ -1,0 +1,44 @@
+//! Verification hook (feature `verif` only): schedule probes.
+//!
+//! A harness may install a callback that is invoked at the entry of a few
+//! public operations. It is used to perturb thread schedules (the callback may
+//! yield or spin) and to record interleaving fingerprints. With no callback
+//! installed a probe costs one relaxed load.
+
+use std::sync::atomic::{AtomicUsize, Ordering};
+
+static CALLBACK: AtomicUsize = AtomicUsize::new(0);
+
+pub const ADD_ASSIGN: u32 = 1;
+pub const DOUBLE: u32 = 2;
+pub const MUL_ASSIGN: u32 = 3;
+pub const WNAF_TABLE: u32 = 4;
+pub const WNAF_EXP: u32 = 5;
+pub const MILLER_LOOP: u32 = 6;
+pub const G2_PREPARE: u32 = 7;
+pub const FINAL_EXP: u32 = 8;
+pub const PIPPINGER: u32 = 9;
+pub const HASH_TO_FIELD: u32 = 10;
+pub const EVAL_ISO: u32 = 11;
+pub const OSSWU_MAP: u32 = 12;
+pub const WNAF_FORM: u32 = 13;
+pub const ADD_ASSIGN_MIXED: u32 = 14;
+
+/// Install a probe callback.
+pub fn install(f: fn(u32)) {
+    CALLBACK.store(f as usize, Ordering::SeqCst);
+}
+
+/// Remove the probe callback.
+pub fn uninstall() {
+    CALLBACK.store(0, Ordering::SeqCst);
+}
+
+#[inline]
+pub fn probe(id: u32) {
+    let cb = CALLBACK.load(Ordering::Relaxed);
+    if cb != 0 {
+        let f: fn(u32) = unsafe { ::std::mem::transmute::<usize, fn(u32)>(cb) };
+        f(id);
+    }
+}
